@@ -123,6 +123,23 @@ __CPROVER_ensures((__CPROVER_return_value != NULL && mv_k < MV_DSZ) ==> ((const 
 ;
 """, 'const char *nm; uint32 nb, tc, ni, is; unsigned int k; mv_k = k; AllocMMessageField(nm, nb, tc, ni, is);',
      'field name <= 6 bytes, <= 3 items of <= 16 bytes each', dict(defines=['MV_MAXNAME=6', 'MV_MAXITEMS=3'])),
+    # the step of MMUnflattenMessage that copies a fixed-size field out of the untrusted buffer: reads only the first
+    # (eLength/itemSize)*itemSize <= eLength bytes of the declared data region, and the field holds exactly those bytes
+    ('ImportMMessageField', 'static MMessageField * ImportMMessageField(const char * fieldName, uint32 nameLength, uint32 tc, uint32 eLength, const void * dataPtr, uint32 itemSize, uint32 swapSize)\n{', r"""
+static MMessageField * ImportMMessageField(const char * fieldName, uint32 nameLength, uint32 tc, uint32 eLength, const void * dataPtr, uint32 itemSize, uint32 swapSize)
+__CPROVER_requires(nameLength >= 1 && nameLength <= MV_MAXNAME && __CPROVER_is_fresh(fieldName, nameLength))
+__CPROVER_requires(itemSize == 1 || itemSize == 2 || itemSize == 4 || itemSize == 8 || itemSize == 16)
+__CPROVER_requires(swapSize >= 1 && swapSize <= itemSize)
+__CPROVER_requires(eLength <= MV_MAXDATA && __CPROVER_is_fresh(dataPtr, eLength))
+__CPROVER_assigns()
+__CPROVER_ensures(eLength < itemSize ==> __CPROVER_return_value == NULL)
+__CPROVER_ensures(__CPROVER_return_value != NULL ==> (__CPROVER_return_value->numItems == eLength / itemSize && __CPROVER_return_value->itemSize == itemSize &&
+   __CPROVER_return_value->typeCode == tc && __CPROVER_return_value->nameBytes == nameLength))
+__CPROVER_ensures((__CPROVER_return_value != NULL && mv_k < (eLength / itemSize) * itemSize) ==> ((const uint8 *)__CPROVER_return_value->data)[mv_k] == ((const uint8 *)dataPtr)[mv_k])
+__CPROVER_ensures((__CPROVER_return_value != NULL && mv_k < nameLength - 1) ==> __CPROVER_return_value->name[mv_k] == fieldName[mv_k])
+;
+""", 'const char *nm; uint32 nl, tc, el, is, ss; const void *d; unsigned int k; mv_k = k; ImportMMessageField(nm, nl, tc, el, d, is, ss);',
+     'field name <= 4 bytes, declared data length <= 16 bytes, item sizes 1/2/4/8/16 (the sizes MMUnflattenMessage passes)', dict(defines=['MV_MAXNAME=4', 'MV_MAXDATA=16'])),
 ]
 
 
@@ -154,7 +171,7 @@ def meta(tier):
     L = codec.lower()
     m = codec.meta_common(L)
     m.update(level='proof',
-             not_lowered=['Message::Flatten framing (Hashtable iteration)', 'lang/python3 (no verifier for Python here)', 'MiniMessage.c above its leaves: MMFlattenMessage / MMUnflattenMessage / FlattenMMessageField / SwapCopy are not under contract (only the cursor read/write ReadData / WriteData, WillUnsignedAddOverflow, the type table IsTypeCodeVariableSize, GetMMessageFieldFlattenedSize for fixed-size field types and AllocMMessageField are); WillUnsignedMultiplyOverflow: contract tried (result == 64-bit product > 2^32-1), the 32-bit divide does not finish on any back end in 4 min, not registered', 'MicroMessage field-level writers UMAdd* (only its primitive readers/writers are covered)'],
+             not_lowered=['Message::Flatten framing (Hashtable iteration)', 'lang/python3 (no verifier for Python here)', 'MiniMessage.c above its leaves: MMFlattenMessage / MMUnflattenMessage / FlattenMMessageField / SwapCopy are not under contract (only the cursor read/write ReadData / WriteData, WillUnsignedAddOverflow, the type table IsTypeCodeVariableSize, GetMMessageFieldFlattenedSize for fixed-size field types, AllocMMessageField and ImportMMessageField are); WillUnsignedMultiplyOverflow: contract tried (result == 64-bit product > 2^32-1), the 32-bit divide does not finish on any back end in 4 min, not registered', 'MicroMessage field-level writers UMAdd* (only its primitive readers/writers are covered)'],
              explanation='Each LittleEndianConverter::Export/Import overload and each DataFlattener Write* method is enforced against the documented byte layout '
                          '(exactly sizeof(T) bytes, byte k = bits 8k..8k+7) for all 2^(8*sizeof T) values; the writer contracts add cursor and frame conditions.')
     return m
